@@ -729,7 +729,10 @@ class Bf3File:
                 "This is a legacy firmware that does not support BF3 upload"
             )
         sort_cmps = sorted(components, key=lambda c: c.description[BF3TAG.TYPE])
-        comments.update(cls.annotations(sort_cmps))
+        try:
+            comments.update(cls.annotations(sort_cmps))
+        except KeyError:
+            raise Bf3FileFormatError("Incomplete BF2 component description")
         return cls(comments, sort_cmps)
 
     def _get_config_ndx(self) -> int:
